@@ -6,6 +6,7 @@ From Coq Require Import QArith Qabs List Bool ZArith String.
 From IPV Require Import C18.Check C18.CheckProofs C18.Search C18.SearchProofs C18.Bits Gen.Gen_C18_bits C18.GenProofs.
 From IPV Require Import C18.Tidy C18.TidyProofs Gen.Gen_C18_tidy C18.TidyGen.
 From IPV Require Import C18.Setup Gen.Gen_C18_setup C18.SetupGen.
+From IPV Require Import C18.Shrink Gen.Gen_C18_shrink C18.ShrinkGen.
 Import ListNotations.
 
 (* ---------------------------------------------------------------- the verified checker (over Q) *)
@@ -143,3 +144,16 @@ Theorem gen_phase_column_entry_counts_atoms : forall rc mc : Q,
   (mc <= 0 -> qeval gen_phase_column_entry rc mc == rc)%Q.
 Proof. exact gen_phase_column_entry_ok. Qed.
 Print Assumptions gen_phase_column_entry_counts_atoms.
+
+(* ---------------------------------------------------------------- sign constraints survive shrink
+   inverse.cpp: shrink — the only store into the sign-constraint vector (regenerated list, Gen_C18_shrink.v)
+   is the compaction  delta_l[cur_col] = delta_l[i];  the in-place compaction loop yields exactly the kept
+   entries in order, i.e. the constraint cl1 sees for the j-th kept column is the one declared for the
+   original column (kept_indices keep 0) !! j. *)
+Theorem gen_shrink_sign_constraints_travel_with_their_columns :
+  stores_ok gen_shrink_sign_stores = true /\
+  forall (keep : list bool) (delta : list Q), List.length keep = List.length delta ->
+    inplace keep [] delta = compact keep delta /\
+    compact keep delta = map (fun i => nth (i - 0) delta 0%Q) (kept_indices keep 0).
+Proof. exact shrink_sign_vector_travels. Qed.
+Print Assumptions gen_shrink_sign_constraints_travel_with_their_columns.
